@@ -691,6 +691,14 @@ impl ContinuityStreamCache {
             ParseMode::Event,
             None,
         )?;
+        if !parsed.complete {
+            // The bounded tail scan stopped before the start of the sidecar: an older frame may
+            // be the best match, so refuse to answer and let callers fall back to truth.
+            return Err(io::Error::new(
+                io::ErrorKind::InvalidData,
+                "compaction checkpoints sidecar tail scan exceeded its bounds",
+            ));
+        }
 
         let mut best: Option<Event> = None;
         for event in parsed.events {
